@@ -12888,14 +12888,14 @@ func (p *PathAttributeMpReachNLRI) DecodeFromBytes(data []byte, options ...*Mars
 	eCode := uint8(BGP_ERROR_UPDATE_MESSAGE_ERROR)
 	eSubCode := uint8(BGP_ERROR_SUB_ATTRIBUTE_LENGTH_ERROR)
 	eData, _ := p.PathAttribute.Serialize(value, options...)
-	if p.Length < 3 {
-		return NewMessageError(eCode, eSubCode, eData, "mpreach header length is short")
-	}
 
 	var family Family
 	// In MRT dumps, AFI+SAFI+NLRI is implicit based on RIB Entry Header, see RFC 6396 4.3.4
 	onlyNexthop := IsMRTSerialization(options)
 	if !onlyNexthop {
+		if p.Length < 3 {
+			return NewMessageError(eCode, eSubCode, eData, "mpreach header length is short")
+		}
 		p.AFI = binary.BigEndian.Uint16(value[:2])
 		p.SAFI = value[2]
 		family = NewFamily(p.AFI, p.SAFI)
